@@ -272,7 +272,47 @@ def check(ctx):
             r2.ok("Expr::MethodCall: always accepted")
         else:
             r2.bad(V(r2.id, "EventParser::is_likely_tauri_emitter", "method-call-receiver", "method-call results are not accepted as emitters"))
-    r2.require_floor(3, "receiver forms")
+    # the heuristic is the only receiver test: in handle_method_call nothing but the method name (emit / emit_to) and is_likely_tauri_emitter
+    # decides whether an emit call is extracted (a second opinion — declared type, symbol table, arity — silently narrows the documented forms)
+    hm = P.find("EventParser::handle_method_call")
+    n_sites = 0
+    for f in hm:
+        for c in f.calls:
+            if short_path(c.best) != "EventParser::extract_emit_event" or c.bb not in f.reach_blocks:
+                continue
+            n_sites += 1
+            extra = []
+            seen_h = False
+
+            def lit_of(call, i):
+                """string literal behind argument i (a literal compared by reference is a promoted constant of this body)"""
+                s_ = call.arg_str(i)
+                if s_ is not None:
+                    return s_
+                k_ = call.const_arg(i)
+                if k_ and "promoted" in k_:
+                    pb = P.fns.get("%s::{promoted#%d}" % (f.id, k_["promoted"]))
+                    strs = pb.const_strs() if pb else []
+                    return strs[0] if len(strs) == 1 else None
+                return None
+            for (bb, keep, lose) in f.filter_branches(0, c.bb):
+                for lab in keep:
+                    o, outcome = f.cond_struct(bb, lab)
+                    if o[0] == "call" and o[1].name in ("eq", "ne") and (lit_of(o[1], 1) in ("emit", "emit_to") or lit_of(o[1], 0) in ("emit", "emit_to")):
+                        continue
+                    if o[0] == "call" and short_path(o[1].best) == "EventParser::is_likely_tauri_emitter" and outcome == "true" \
+                            and "ExprMethodCall.receiver" in f.describe_origin(f.origin(o[1].args[-1]), deep=2):
+                        seen_h = True
+                        continue
+                    extra.append("%s=%s" % (f.describe_origin(o)[:60], outcome))
+            if extra or not seen_h:
+                r2.bad(V(r2.id, f.id, "extraction-guard:%s" % (";".join(sorted(set(extra))) or "no-heuristic"),
+                         "whether an emit call is extracted depends on more (or other) than the method name and is_likely_tauri_emitter(receiver): %s" % (extra or "the heuristic is not consulted"), c.file, c.line))
+            else:
+                r2.ok("handle_method_call: extraction guarded by the method name and the receiver heuristic only")
+    if not n_sites:
+        r2.bad(V(r2.id, "<anchor>", "missing:extract_emit_event-call", "anchor not found: handle_method_call does not call extract_emit_event"))
+    r2.require_floor(4, "receiver forms + extraction guard")
     rules.append(r2)
 
     # ---------------------------------------------------------------- D3
